@@ -1193,7 +1193,7 @@ def directed(rng, sch, budget):
     for a, v1, v2 in cap(group, budget * 3):
         used = sorted({x[1] for x in value_leaves(v1) + value_leaves(v2) if x[0] == "var"})
         vars_ = [(n, vtypes.get(a, N("Int")), None, []) for n in used]
-        mode = rng.choice(["same", "same", "diff-objects", "one-missing", "extra-arg"])
+        mode = rng.choice(["same", "same", "same", "one-missing", "extra-arg"])
         f1 = mk_field("scalars", args=[(a, v1)])
         f2 = mk_field("scalars", args=[(a, v2)])
         if mode == "one-missing":
@@ -1202,6 +1202,28 @@ def directed(rng, sch, budget):
             f2 = mk_field("scalars", args=[("s", ("str", "z")), (a, v2)])
             f1 = mk_field("scalars", args=[(a, v1), ("s", ("str", "z"))])
         out.append(("merge-arguments-" + mode, [mk_op([f1, f2], vars_=vars_)]))
+    # B2. the same field under two different object types with different arguments (valid when the shapes agree)
+    group = []
+    for P in comps:
+        objs = [o for o in sch.possible(P)]
+        for T1 in objs:
+            for T2 in objs:
+                if T1 == T2:
+                    continue
+                for f1 in sch.fields(T1):
+                    f2 = sch.field(T2, f1[0])
+                    if f2 and f1[1] and f2[1]:
+                        group.append((P, T1, T2, f1, f2))
+    for P, T1, T2, f1, f2 in cap(group, budget):
+        a = {"k": "I", "cond": T1, "dirs": [], "sels": [fsel(f1, args=const_args(rng, sch, f1[1], all_args=True))]}
+        b = {"k": "I", "cond": T2, "dirs": [], "sels": [fsel(f2, args=const_args(rng, sch, f2[1], all_args=rng.random() < 0.5))]}
+        out.append(("merge-arguments-diff-objects", [mk_op([at_type(P, [a, b])])]))
+        # and under an abstract parent next to an object parent (must be identical there)
+        I = [i for i in sch.objects[T1]["implements"] if sch.field(i, f1[0])]
+        if I:
+            fi = sch.field(I[0], f1[0])
+            c = {"k": "I", "cond": I[0], "dirs": [], "sels": [fsel(fi, args=const_args(rng, sch, fi[1], all_args=rng.random() < 0.5))]}
+            out.append(("merge-arguments-abstract-vs-object", [mk_op([at_type(P, [a, c])])]))
     # C. every kind of literal for every argument type, at every list depth
     group = [(a, t, lit, depth) for a, t, dv in sc[1] for lit in WRONG_LITERALS for depth in (0, 1, 2)]
     for a, t, lit, depth in cap(group, budget * 4):
